@@ -656,6 +656,7 @@ func (x *Exec) evUnary(st *State, e *ast.UnaryExpr) Val {
 			return x.havocVal(st, "recv", x.typeOf(e))
 		}
 		x.ev(st, e.X)
+		x.noteCtxDone(st, e.X)
 		x.vc.note("channel receive: value unconstrained")
 		return x.havocVal(st, "recv", x.typeOf(e))
 	case token.AND:
@@ -811,6 +812,8 @@ func (x *Exec) binop(st *State, op string, l, r Val, operandT types.Type) Val {
 		case "+":
 			x.vc.declFun("str_concat", []string{"Str", "Str"}, "Str")
 			x.vc.termFact(fmt.Sprintf("(forall ((a!s Str)) (! (and (= (str_concat a!s str_empty) a!s) (= (str_concat str_empty a!s) a!s)) :pattern ((str_concat a!s str_empty)) :pattern ((str_concat str_empty a!s))))"))
+			// a concatenation is empty exactly when both parts are
+			x.vc.termFact("(forall ((a!s Str) (b!s Str)) (! (= (= (str_concat a!s b!s) str_empty) (and (= a!s str_empty) (= b!s str_empty))) :pattern ((str_concat a!s b!s))))")
 			return Val{T: fmt.Sprintf("(str_concat %s %s)", l.T, r.T), Sort: "Str", GoT: l.GoT}
 		case "<", "<=", ">", ">=":
 			x.vc.declFun("str_lt", []string{"Str", "Str"}, "Bool")
